@@ -16,6 +16,13 @@ type Op struct {
 	R    string `json:"r,omitempty"`    // receiver, dv format ("" = the subject itself)
 	P    int    `json:"p,omitempty"`    // prototype tag / source tag (assign); -1 = null
 	Note string `json:"note,omitempty"` // generator label
+	L    []KD   `json:"l,omitempty"`    // defprops: the property list, in the order OrdinaryOwnPropertyKeys gives for it
+}
+
+// KD is one entry of the property list of Object.defineProperties.
+type KD struct {
+	K string `json:"k"`
+	D *Desc  `json:"d"`
 }
 
 func boolS(b bool) string {
@@ -87,6 +94,31 @@ func (w *World) Apply(op *Op) (res string, modelled bool) {
 			return throwS(ab), true
 		}
 		return failRes(ok, recv.String()), true
+	case "defprops":
+		// 20.1.2.3.1 ObjectDefineProperties: every descriptor is converted first (an invalid one aborts before anything
+		// is defined), then the properties are defined in order, stopping at the first failure
+		for _, kd := range op.L {
+			if kd.D.IsAccessor() && kd.D.IsData() {
+				return "throw:TypeError", true
+			}
+		}
+		for _, kd := range op.L {
+			kk, err := ParseKey(kd.K)
+			if err != nil {
+				return "", false
+			}
+			ok, ab := w.DefineOwnProperty(o, kk, kd.D)
+			if ab == "unmodelled" {
+				return "", false
+			}
+			if ab != "" {
+				return throwS(ab), true
+			}
+			if !ok {
+				return "throw:TypeError", true
+			}
+		}
+		return recv.String(), true
 	case "get":
 		val, ab := w.Get(o, k, recv)
 		if ab != "" {
@@ -166,9 +198,10 @@ func (w *World) Apply(op *Op) (res string, modelled bool) {
 	case "setProto":
 		ok, _ := w.SetPrototypeOf(o, op.P)
 		return failRes(ok, recv.String()), true
-	case "forin":
+	case "forin", "forin2":
 		seen := map[string]bool{}
 		var parts []string
+		var firstKey *Key
 		for p, depth := o, 0; p != nil && depth < 100; depth++ {
 			if p.Opaque {
 				return "", false
@@ -180,12 +213,22 @@ func (w *World) Apply(op *Op) (res string, modelled bool) {
 				seen[key.S] = true
 				if d := w.GetOwnProperty(p, key); d != nil && d.E {
 					parts = append(parts, key.String())
+					if firstKey == nil {
+						kc := key
+						firstKey = &kc
+					}
 				}
 			}
 			if p.Proto < 0 {
 				break
 			}
 			p = w.obj(p.Proto)
+		}
+		if op.Op == "forin2" && firstKey != nil {
+			// forin2: while the first key is being visited, a complete nested enumeration of the same object runs and
+			// the (already visited) first key is then deleted from the object itself: the rest of the enumeration is
+			// not affected (14.7.5.9: only properties not yet visited can be skipped)
+			w.Delete(o, *firstKey)
 		}
 		return strings.Join(parts, ","), true
 	case "assign":
